@@ -32,6 +32,7 @@ fn exec(a: &[String]) {
     let mut out = PathBuf::new();
     let (mut from, mut to) = (0usize, usize::MAX);
     let mut markers = false;
+    let mut settle = false;
     let mut i = 0;
     while i < a.len() {
         match a[i].as_str() {
@@ -43,6 +44,11 @@ fn exec(a: &[String]) {
             "--to" => to = a[i + 1].parse().unwrap(),
             "--markers" => {
                 markers = true;
+                i += 1;
+                continue;
+            }
+            "--settle" => {
+                settle = true;
                 i += 1;
                 continue;
             }
@@ -72,6 +78,21 @@ fn exec(a: &[String]) {
         let mut text = line.to_string();
         text.push('\n');
         outf.write_all(text.as_bytes()).expect("write out");
+    }
+    if settle {
+        // let background work of dropped async writers finish before the process goes away
+        // (tokio: join the blocking pool; async-std: nothing to join, so poll the temp area)
+        cvh::exec::set_window_markers(None);
+        cvh::rt::quiesce();
+        let tmp = ctx.cache.join("tmp");
+        let t0 = std::time::Instant::now();
+        while t0.elapsed().as_millis() < 3000 {
+            let empty = std::fs::read_dir(&tmp).map(|r| r.count() == 0).unwrap_or(true);
+            if empty {
+                break;
+            }
+            std::thread::sleep(std::time::Duration::from_millis(2));
+        }
     }
 }
 
